@@ -1,7 +1,7 @@
 use crate::analysis::AvailableValue;
 use crate::cfg::Cfg;
 use crate::parser::{HasIdentity, HasRegisterSets, Register};
-use crate::passes::{DiagnosticManager, LintError, LintPass};
+use crate::passes::{DiagnosticLocation, DiagnosticManager, LintError, LintPass};
 use std::collections::HashSet;
 
 // Check if the values of callee-saved registers are restored to the original value at the end of the function
@@ -11,6 +11,7 @@ impl LintPass for CalleeSavedRegisterCheck {
         // A function with several entry labels appears once per label in the
         // function table: check it only once.
         let mut checked = HashSet::new();
+        let mut reported = Vec::new();
         for func in cfg.functions().values() {
             if !checked.insert(func.id()) {
                 continue;
@@ -31,7 +32,12 @@ impl LintPass for CalleeSavedRegisterCheck {
                         // from the return point that that register was overwritten.
                         let ranges = Cfg::error_ranges_for_first_store(&func.exit(), reg);
                         for range in ranges {
-                            errors.push(LintError::OverwriteCalleeSavedRegister(range));
+                            // Functions that share code find the same store
+                            let place = (range.file(), range.range());
+                            if !reported.contains(&place) {
+                                reported.push(place);
+                                errors.push(LintError::OverwriteCalleeSavedRegister(range));
+                            }
                         }
                     }
                 }
